@@ -248,12 +248,32 @@ theorem fixed_rule_reports (s : CSt) (l : List String) (h : finalResult true 0 s
   | false => rfl
   | true => simp [he] at h
 
-/-- which of the two rules the source has right now -/
+/-- the final rule of `Execute` covers `maxResults = 0` (fix of finding L2); a revert breaks this lemma -/
 theorem tie_final_error_rule :
-    (Gen.ListObjects.finalErrorRule = "len(listObjectsResponse.Objects) < int(maxResults) && errs != nil" ∧
-      Gen.ListObjects.zeroLimitReportsErrors = false) ∨
-    (Gen.ListObjects.finalErrorRule = "(maxResults == 0 || len(listObjectsResponse.Objects) < int(maxResults)) && errs != nil" ∧
-      Gen.ListObjects.zeroLimitReportsErrors = true) := by decide
+    Gen.ListObjects.finalErrorRule = "(maxResults == 0 || len(listObjectsResponse.Objects) < int(maxResults)) && errs != nil" ∧
+    Gen.ListObjects.zeroLimitReportsErrors = true := by decide
+
+/-- weighted engine, exclusion without excluded edge (fix of finding L1): the traversal that sends to the
+caller's `resultChan` runs on the caller (`c.loopOverEdges`), not on a shallow clone with a fresh
+`candidateObjectsMap`; a revert breaks this lemma -/
+theorem tie_weighted_exclusion_dedup :
+    Gen.ListObjects.exclusionNoExcludedEdgeChan = "resultChan" ∧
+    Gen.ListObjects.exclusionNoExcludedEdgeCall = "c.loopOverEdges" := by decide
+
+/-- **No silent truncation** (the rule as the source has it now, `zeroLimitReportsErrors = true`): with
+`maxResults = 0`, for every schedule without deadline — errors of the reverse expansion or of a Check,
+cancellations and `drop` choices included — a response that is returned without error holds every
+confirmed object. -/
+theorem no_silent_truncation : FullNoSilentTruncation Gen.ListObjects.zeroLimitReportsErrors := by
+  rw [tie_final_error_rule.2]
+  intro chk res evs hev hq l hl
+  have herr := fixed_rule_reports _ l hl
+  have hout : l = (crun 0 chk evs (CSt.init res)).out := by
+    unfold finalResult at hl
+    rw [herr] at hl
+    simpa using hl.symm
+  rw [hout]
+  exact RevExpand.zero_limit_complete chk res evs hev hq herr
 
 /-! ## completeness -/
 
